@@ -31,7 +31,15 @@ class EvState:
         return self._h
 
     def add(self, *evs: str) -> "EvState":
-        return EvState(self.events | set(evs), self.guards)
+        """Events are added in order; an event written "-name" removes `name` (kill), which turns the must-set into a
+        'since the last kill' set."""
+        cur = set(self.events)
+        for x in evs:
+            if x.startswith("-"):
+                cur.discard(x[1:])
+            else:
+                cur.add(x)
+        return EvState(frozenset(cur), self.guards)
 
     def guard(self, text: str, truth: bool) -> "EvState":
         return EvState(self.events, self.guards | {(text, truth)})
